@@ -4,9 +4,14 @@ tools/not_applicable.json (properties not claimed, with reasons)."""
 import glob, json, os, subprocess
 V = "/verif"
 checks = []
+allow = None
+if os.path.exists(V + "/tools/claimed.txt"):
+    allow = set(open(V + "/tools/claimed.txt").read().split())
 for fp in sorted(glob.glob(V + "/harness/c[0-9][0-9]/check.json")):
     c = json.load(open(fp))
     if c.get("disabled"):
+        continue
+    if allow is not None and c["property_id"] not in allow:
         continue
     pid = c["property_id"]
     checks.append({
